@@ -430,6 +430,34 @@ def run(p, report, tier):
                 "refit (partial_fit without set_base_clf, directly or in a helper that refits first) and never inside "
                 "a loop that contains one: otherwise it sees the model of the last simulated candidate", floor=2)
     check_wrapper_typestate(p, report, funcs)
+    # ---- shared primitives / wrappers that decide the selection in every candidates mode
+    report.rule("R8.10", "the selection is the same in every candidates mode whenever the best candidate is unique: "
+                "rand_argmax masks with exact equality (shared with C18 R18.1), and the sub-sampling wrapper sizes its "
+                "subset from the population it draws from in each mode (shared with C20 R20.2)", floor=6)
+    from . import c18, c20
+    c18.check_argmax_primitives(p, report, "R8.10")
+    c20.check_subset_population(p, report, "R8.10")
+    report.rule("R8.11", "a pool query never mutates a cached fitted attribute (self.<a>_) in place: a later call - with "
+                "the candidates addressed differently - would start from the altered cache", floor=30)
+    from ..absint import Interp
+    from ..effects import writes
+    from . import c05
+    for ci, fq in c05.pool_entities(p):
+        it = Interp(p)
+        it.run_entity(ci, fq)
+        hits = {}
+        for w in writes(it.events, roots=("self",)):
+            root, path = w.loc
+            if w.kind == "mutate" and path and path[0].endswith("_") and path[0] != "random_state_" \
+                    and not str(w.how).startswith("draw:"):
+                hits.setdefault(path[0], w)
+        ent8 = f"{ci.name}.{fq.name}"
+        if not hits:
+            report.add("R8.11", ent8, "no cached attribute mutated in place", f"{fq.file}:{fq.node.lineno}", True)
+        for a, w in sorted(hits.items()):
+            report.add("R8.11", ent8, f"self.{a} mutated in place ({w.how}) via `{norm_stmt(w.ev.node, 60)}`", w.ev.loc, False,
+                       detail="the cached attribute is altered by the query: the next query (e.g. with the full pool after "
+                              "a restricted one) computes other utilities", path=w.ev.path())
     n87 = check_candidate_count_uses(p, report, funcs)
     report.analysed["candidate_count_uses"] = n87
     n86 = check_reference_set_roles(p, report, funcs)
